@@ -533,6 +533,24 @@ def c02(tier):
     ck.add_judge(n, jst)
     report_run_bad(ck, "C02", bad, events, meta, "coherence law broken on the real impls / tables differ from DxCmp under one consistent key")
     ck.notes["runtime"] = stats
+    # partially ordered (float-like, NaN) field types, owned and behind shared references, where only PartialEq / PartialOrd are derived:
+    # `==` need not be reflexive there, so only the agreement of ==, partial_cmp and the operators with DxCmp is judged (full tables, the
+    # diagonal - a value compared with ITSELF - included), not the equivalence laws
+    pitems = []
+    for ci, c in enumerate(cfgs):
+        if set(c["D"]) <= {"PartialEq", "PartialOrd"} and "PartialEq" in c["D"]:
+            pvs = cf.pv_shapes()
+            stag, build = pvs[ci % len(pvs)]
+            # (a helper attribute that is not derive_ex's for this derived set stays on the item: such programs compile through #[derive(Ex)] only)
+            present = [a for a in cf.ATTRS if c["c"][a] != cf.NOOPT]
+            entry = ("attr" if ci % 2 else "derive") if all(a in c["rec"] for a in present) else "derive"
+            pitems.append((build(c["c"]), c["D"], entry, stag, c["c"]))
+    if pitems:
+        pev, pmeta, pstats = observe_runtime(ck, pitems, "coherent", False, "c02pv")
+        n2, bad2, jst2 = dx.tlc_judge("Trace_Cmp", "Trace_Cmp.cfg", pev, "c02pv", chunk=max(300, -(-len(pev) // 12)))
+        ck.add_judge(n2, jst2)
+        report_run_bad(ck, "C02", bad2, pev, pmeta, "== / partial_cmp of a type with partially ordered fields differ from DxCmp (a value compared with itself included)")
+        ck.notes["runtime_pv"] = pstats
     ls = [e for e in events if e["ev"] == "laws"]
     for e in ls[:2] + ls[-1:]:
         ck.sample({"item": cf.item_src(e["P"], e["D"], "T", "coherent", "attr")[:400], "laws": e["laws"]})
